@@ -143,7 +143,7 @@ func hostileHeader(r *Rand) []byte {
 }
 
 func generate(do func(string), r *Rand, tier string) {
-	nSeq, nHostile, shortCut := 140, 500, 150
+	nSeq, nHostile, shortCut := 120, 400, 110
 	big := false
 	if tier == "thorough" {
 		nSeq, nHostile, shortCut = 1000, 6000, 300
@@ -171,6 +171,8 @@ func generate(do func(string), r *Rand, tier string) {
 	do("encode 0 m none")
 	do("encode 1 m none")
 	do("unmarshal -")
+	do("unmarshalpacked -")
+	do("marshalpacked m none")
 	do("decode 0 0 1 d,d -")
 	do("decode 1 0 1 d,d -")
 	do("decode 0 0 1 r,d,d -")
@@ -224,6 +226,7 @@ func generate(do func(string), r *Rand, tier string) {
 			do("marshal " + ar + " " + ss)
 			if frameLen(m) <= 6000 {
 				do("encode 1 " + ar + " " + ss)
+				do("marshalpacked " + ar + " " + ss)
 			}
 			b, err := encodeBytes(false, ar, m)
 			if err != nil {
@@ -238,7 +241,7 @@ func generate(do func(string), r *Rand, tier string) {
 			do("unmarshal " + fmtBytes(b))
 			// truncated input to Unmarshal: every prefix of short frames, else around the header
 			// end, the last word and random points
-			if len(b) <= shortCut/2 {
+			if len(b) <= shortCut/3 {
 				for cut := 1; cut < len(b); cut++ {
 					do("unmarshal " + fmtBytes(b[:cut]))
 				}
@@ -252,6 +255,27 @@ func generate(do func(string), r *Rand, tier string) {
 			}
 			if r.Intn(4) == 0 { // trailing bytes are ignored by Unmarshal
 				do("unmarshal " + fmtBytes(append(append([]byte{}, b...), genData(r, 1+r.Intn(20))...)))
+			}
+			// UnmarshalPacked: MarshalPacked output, the packed encoder's output, their prefixes,
+			// a mutated copy
+			if len(pb) <= 3000 {
+				mp, err := newMessage(ar, m).MarshalPacked()
+				if err == nil && len(mp) > 0 {
+					do("unmarshalpacked " + fmtBytes(mp))
+					do("unmarshalpacked " + fmtBytes(pb))
+					if len(mp) <= shortCut/3 {
+						for cut := 0; cut < len(mp); cut++ {
+							do("unmarshalpacked " + fmtBytes(mp[:cut]))
+						}
+					} else {
+						for i := 0; i < 5; i++ {
+							do("unmarshalpacked " + fmtBytes(mp[:r.Intn(len(mp))]))
+						}
+					}
+					mut := append([]byte(nil), mp...)
+					mut[r.Intn(len(mut))] ^= 1 << uint(r.Intn(8))
+					do("unmarshalpacked " + fmtBytes(mut))
+				}
 			}
 			stream = append(stream, b...)
 			pstream = append(pstream, pb...)
@@ -325,6 +349,9 @@ func generate(do func(string), r *Rand, tier string) {
 			h := hdrLen(len(msgs[0]))
 			for j := 0; j < 1+r.Intn(2); j++ {
 				p := r.Intn(h)
+				if p >= len(mut) {
+					continue
+				}
 				switch r.Intn(3) {
 				case 0:
 					mut[p] ^= 1 << uint(r.Intn(8))
